@@ -2561,7 +2561,7 @@ def demoOpq : V2.Opq :=
     nkeys_IsValidPublicUserKey := fun _ => false, nkeys_IsValidPublicCurveKey := fun _ => false,
     nkeys_IsValidPublicServerKey := fun _ => false, time_Parse := fun _ _ => false, net_ParseCIDR := fun _ => false,
     time_LoadLocation := fun _ => false, nkeys_IsValidPublicOperatorKey := fun _ => false,
-    UserClaims_HasEmptyPermissions := fun _ => some true, time_NowAddUnix := fun d => d, sha256_Sum := fun x => x, base32_StdEncode := fun _ => [],
+    UserClaims_HasEmptyPermissions := fun _ => some true, time_NowAddUnix := fun d => d, sha256_Sum := fun x => x, base32_StdEncode := fun _ => [], json_MarshalClaimsData := fun _ => ([], false), sha512_Sum512_256 := fun x => x, base32_StdNoPadEncode := fun _ => [],
     json_Unmarshalanon_GenericClaims_GenericFields := fun _ g => (g, true),
     nkeys_FromPublicKey := fun _ => some 7, nkeys_Prefix := fun _ => 0,
     nkeys_Decode := fun _ _ => some (List.replicate 32 0),
@@ -3843,5 +3843,34 @@ theorem v1_hashID_eq_v2 (o1 : Gen.Fn.V1.Opq) (o2 : V2.Opq) (a1 : Gen.Fn.V1.T_Act
   by_cases h3 : a2.f_Activation.f_ImportSubject = []
   · simp [h3]
   simp [h1, h2, h3, v1_cleanSubject]
+
+/-! ## C12: the token id function `ClaimsData.hash`, as translated
+
+`json.Marshal` of the standard fields, SHA-512/256 and unpadded base32 are parameters. The id is the digest of the
+serialised *standard fields* and of nothing else: the function does not see the rest of the claims. -/
+
+theorem gen_hash (opq : V2.Opq) (c : V2.T_ClaimsData) :
+    V2.ClaimsData_hash c opq = some
+      (if (opq.json_MarshalClaimsData c).2 then ([], true)
+       else (opq.base32_StdNoPadEncode (opq.sha512_Sum512_256 (opq.json_MarshalClaimsData c).1), false)) := by
+  unfold V2.ClaimsData_hash
+  cases h : (opq.json_MarshalClaimsData c).2 <;> simp [h]
+
+/-! ## Non-vacuity of the later ties: concrete environments in which the translated functions succeed -/
+
+/-- an environment that accepts every user key and whose `encode` returns a token -/
+def demoOpq2 : V2.Opq :=
+  { demoOpq with nkeys_IsValidPublicUserKey := fun _ => true,
+                 ClaimsData_encode := fun _ _ _ => some ("tok".toList, false) }
+
+example : V2.IssueUserJWT 1 "A".toList "U".toList [] 0 [] 0 demoOpq2 = some ("tok".toList, false) := by decide
+example : V2.IssueUserJWT 1 "A".toList "U".toList [] 0 [] 0 demoOpq = some ([], true) := by decide
+example : V2.ActivationClaims_HashID
+    { f_ClaimsData := { (default : V2.T_ClaimsData) with f_Issuer := "A".toList, f_Subject := "B".toList },
+      f_Activation := { (default : V2.T_Activation) with f_ImportSubject := "x.*".toList } } demoOpq = some ([], false) := by decide
+example : V2.ActivationClaims_HashID default demoOpq = some ([], true) := by decide
+example : V2.RenamingSubject_ToSubject "a.$1.b".toList { demoOpq with strconv_Atoi := fun _ => some 1 } = some "a.*.b".toList := by decide
+example : V2.Exports_Less [none, some { (default : V2.T_Export) with f_Subject := "a".toList }] 0 1 = some true := by decide
+example : (match V2.loadClaims [] demoOpq with | some (2, some (.AccountClaims _), false) => true | _ => false) = true := by decide
 
 end Jwt.FnTie
